@@ -106,6 +106,8 @@ fn exprs(tier: Tier) -> Vec<Expression> {
         num(1.0, 2.0) * x.clone(),
         num(1e21, 0.0),
         num(1e-7, 0.0),
+        num(1e-17, 0.0),
+        num(0.0, -3e-20),
     ];
     if tier == Tier::Thorough {
         v.extend([
@@ -514,7 +516,7 @@ pub static C04: PropDef = PropDef {
     id: "C04",
     level: "exploration",
     engine: "sweep",
-    rule: "instructions built with the public constructors: literal reals/integers (incl. -2.0, 1e21, 1e-7, i64::MIN/MAX) in every classical operand kind, 15 (thorough 33) expressions (negative and complex numbers, nested negation, variables, references) in DELAY x {0,1,2 frame names} x {0,1,2 fixed, variable qubits}, gate parameters, SET-*/SHIFT-*, RAW-CAPTURE, waveform parameters, frame attributes, DEFWAVEFORM, DEFCAL / DEFCAL MEASURE / DEFCIRCUIT bodies, DEFGATE matrices; CALL with every immediate form; one form of every other instruction; all single instructions and all ordered pairs over a reduced list; every expression tree of depth <= 1 of the C03 alphabet (693) at every one of the 30 expression-bearing sites, and every tree of depth 2 (2.4 M) at the most context-sensitive site (DELAY without frame names; thorough: at 8 sites), compared by skeleton equality plus guarded value equality of each expression; 42 placeholder / placeholder-free twins. non-trivial = instruction containing an expression or literal (distinct by debug text)",
+    rule: "instructions built with the public constructors: literal reals/integers (incl. -2.0, 1e21, 1e-7, i64::MIN/MAX) in every classical operand kind, 17 (thorough 35) expressions (negative and complex numbers, literals below 1e-16, nested negation, variables, references) in DELAY x {0,1,2 frame names} x {0,1,2 fixed, variable qubits}, gate parameters, SET-*/SHIFT-*, RAW-CAPTURE, waveform parameters, frame attributes, DEFWAVEFORM, DEFCAL / DEFCAL MEASURE / DEFCIRCUIT bodies, DEFGATE matrices; CALL with every immediate form; one form of every other instruction; all single instructions and all ordered pairs over a reduced list; every expression tree of depth <= 1 of the C03 alphabet (693) at every one of the 30 expression-bearing sites, and every tree of depth 2 (2.4 M) at the most context-sensitive site (DELAY without frame names; thorough: at 8 sites), compared by skeleton equality plus guarded value equality of each expression; 42 placeholder / placeholder-free twins. non-trivial = instruction containing an expression or literal (distinct by debug text)",
     assumptions: &["equivalence = == after replacing every expression by its value at two generic points rounded to 12 significant digits (DESIGN §4 C04); in the exhaustive expression-site space: == of the instruction with every expression blanked, plus value equality of each expression pair at the C03 points under the C03 guards"],
     run: |ctx| {
         let s = singles(ctx.tier);
